@@ -2,7 +2,9 @@
 #![allow(clippy::all)]
 pub mod caches;
 pub mod drivers;
+pub mod drivers2;
 pub mod points;
 pub mod ops;
+pub mod ops2;
 pub mod proj;
 pub mod replay;
